@@ -170,7 +170,7 @@ def foreachLabelFeasible (v : PCaseView) (label : String) : Bool :=
   match label with
   | "closed-waiting-enable" => hadCtx v
   | "disabled" => disabledGiven v
-  | "closed-waiting-execute" => v.calls.any (·.isClose)
+  | "closed-waiting-execute" => hadCtx v
   | "items-ok" => v.outcome == "success" || hadCtx v     -- items aborted by the cancelled context are not counted as failed
   | "items-failed" => v.outcome != "success" || hadCtx v
   | _ => false
@@ -249,9 +249,10 @@ def checkCase (c : Json) : Verdict := Id.run do
     if isPlugin then LifecycleSpec.violations Arca.Gen.pluginStages pluginEdges v.declared v.trace
     else LifecycleSpec.violations Arca.Gen.foreachStages Arca.Model.ForeachStep.foreachEdges [] v.trace
   if blocked.isEmpty then
-    viol := viol ++ lv.map (fun s => "illegal-trace:" ++ s)
-    let und := LifecycleSpec.undeclaredTransitions
-      (if isPlugin then pluginEdges else Arca.Model.ForeachStep.foreachEdges) v.trace
+    let und := (LifecycleSpec.undeclaredTransitions
+      (if isPlugin then pluginEdges else Arca.Model.ForeachStep.foreachEdges) v.trace).eraseDups
+    viol := viol ++ (lv.filter (· != "undeclared-transition")).map (fun s => "illegal-trace:" ++ s)
+    viol := viol ++ und.map (fun e => "illegal-trace:undeclared-transition:" ++ e.1 ++ "->" ++ e.2)
     if !und.isEmpty then
       detail := detail ++ [("undeclared_transitions", Json.arr (und.map (fun e => Json.str (e.1 ++ "->" ++ e.2))).toArray)]
     -- the model's own prediction of (ii) must agree (same acceptor on the model path = same trace): nothing to compare
@@ -266,8 +267,8 @@ def checkCase (c : Json) : Verdict := Id.run do
               | .change _ _ "running" => true
               | _ => false)
         else
-          -- foreach: the send on the closed `executeInput` (ForeachStep.syncStep, provideExecuteSend)
-          c.op == "provide" && c.stage == "execute" && v.calls.any (·.isClose)
+          -- foreach: the skeleton has no panicking move (foreach_provide_never_blocks)
+          false
       if !predicted then diffs := diffs ++ ["panic-not-predicted"]
   for c in blocked do
     if c.isClose then viol := viol ++ ["close-did-not-return"]
@@ -320,7 +321,7 @@ def checkCase (c : Json) : Verdict := Id.run do
   if late > 0 then
     viol := viol ++ ["notification-after-close"]
     detail := detail ++ [("late_notifications", Json.num late), ("first_close_ret", Json.num firstRet)]
-    if isPlugin then diffs := diffs ++ ["late-notification-not-predicted"]   -- proved impossible for the plugin model
+    diffs := diffs ++ ["late-notification-not-predicted"]   -- proved impossible for both skeletons
   if blocked.isEmpty then
     let compl := (getArr c "trace").find? (fun n => getStr n "k" == "complete")
     match compl with
